@@ -48,6 +48,26 @@ var genTags = []vocab.LangRef{"en", "fr", "de-AT", "ro", "pt-BR"}
 
 // NLVShape builds a language list of the given shape: nlv1u nlv1t nlv2 nlv3.
 func (g *Gen) NLVShape(shape string) vocab.NaturalLanguageValues {
+	n := g.nlvShape(shape)
+	if !g.Spare || len(n) == 0 {
+		return n
+	}
+	// spare capacity filled with sentinels, for the list and for every text
+	out := make(vocab.NaturalLanguageValues, len(n), len(n)+2)
+	for i, e := range n {
+		txt := make(vocab.Content, len(e.Value), len(e.Value)+6)
+		copy(txt, e.Value)
+		copy(txt[len(txt):cap(txt)], "CANARY")
+		out[i] = vocab.LangRefValue{Ref: e.Ref, Value: txt}
+	}
+	full := out[:cap(out)]
+	for i := len(n); i < len(full); i++ {
+		full[i] = vocab.LangRefValue{Ref: "canary", Value: vocab.Content("canary")}
+	}
+	return out
+}
+
+func (g *Gen) nlvShape(shape string) vocab.NaturalLanguageValues {
 	switch shape {
 	case "nlv-empty":
 		return vocab.NaturalLanguageValues{} // what the constructors pre-allocate
